@@ -807,17 +807,30 @@ class OpaqueTables:
     their gradients dhdX and the differential volumes dV are free reals (dV > 0); the real Region produces
     such tables (C06).  One object = every region / mesh geometry with this connectivity"""
 
-    def __init__(s, vk, cells, dim, nq):
+    def __init__(s, vk, cells, dim, nq, concrete=False, cell_type="opaque"):
         cells = np.asarray(cells)
         nc, npc = cells.shape
         npoints = int(cells.max()) + 1
         near = (np.arange(npoints * dim).reshape(npoints, dim) % 5) * 0.4 + 1.0
-        s.mesh = fem.Mesh(vk.reals("X", (npoints, dim), near=near, spread=0.2), cells, "opaque")
-        s.h = vk.reals("h", (npc, nq, nc), near=1.0 / npc, spread=0.2)
-        s.dhdX = vk.reals("g", (npc, dim, nq, nc), near=0.0, spread=0.7)
-        s.dV = vk.reals("dV", (nq, nc), near=0.5, spread=0.25)
-        for x in s.dV.ravel():
-            vk.requires(x, ">")
+        if concrete:
+            # fixed tables in general position (dyadic rationals): one particular region
+            rng = np.random.RandomState(7)
+
+            def tab(shape, lo, hi):
+                a = rng.randint(int(lo * 16), int(hi * 16) + 1, size=shape) / 16.0
+                return ring.lift(a) if vk.sym else a
+
+            s.mesh = fem.Mesh(tab((npoints, dim), 1.0, 3.0), cells, cell_type)
+            s.h = tab((npc, nq, nc), 0.1, 0.6)
+            s.dhdX = tab((npc, dim, nq, nc), -0.7, 0.7)
+            s.dV = tab((nq, nc), 0.25, 0.75)
+        else:
+            s.mesh = fem.Mesh(vk.reals("X", (npoints, dim), near=near, spread=0.2), cells, cell_type)
+            s.h = vk.reals("h", (npc, nq, nc), near=1.0 / npc, spread=0.2)
+            s.dhdX = vk.reals("g", (npc, dim, nq, nc), near=0.0, spread=0.7)
+            s.dV = vk.reals("dV", (nq, nc), near=0.5, spread=0.25)
+            for x in s.dV.ravel():
+                vk.requires(x, ">")
 
         class Q:
             npoints = nq
@@ -840,11 +853,40 @@ def _F_spec(vk, kind, region, mesh, cells, u):
         R = ref_einsum("aqc,ca->qc", region.h, mesh.points[:, 1][cells])
         ur = ref_einsum("aqc,ca->qc", region.h, u[:, 1][cells])
         for x in R.ravel():
-            vk.requires(x, ">")
+            if not (vk.sym and not co(x).gens()):
+                vk.requires(x, ">")
         F[2, 2] = ur / R
     for i in range(Fd):
         F[i, i] = F[i, i] + 1
     return F
+
+
+class _LetArray(np.ndarray):
+    """object array whose item assignment stores FRESH symbols instead of the assigned expressions
+    (let-abstraction of an intermediate quantity: what is proved afterwards holds for every value of it)"""
+
+    _count = [0]
+
+    def __setitem__(s, key, value):
+        tgt = np.asarray(s)[key]
+        n = _LetArray._count[0]
+        _LetArray._count[0] += 1
+        fresh = ring.symarray(f"p{n}_", np.shape(tgt))
+        np.ndarray.__setitem__(s, key, fresh)
+
+
+def _abstract_pressure_state(vk, field):
+    """the real StateNearlyIncompressible (documented `state` argument) whose pressure array abstracts every
+    update by fresh symbols in the symbolic run: the stress identities are then proved for EVERY pressure state
+    (the update formula of p itself belongs to C10); native run: the plain state"""
+    from felupe.mechanics._helpers import StateNearlyIncompressible
+
+    st = StateNearlyIncompressible(field)
+    if vk.sym:
+        p = np.empty(np.shape(st.p), dtype=object).view(_LetArray)
+        p[...] = 0
+        st.p = p
+    return st
 
 
 def _require_detF(vk, F):
@@ -859,12 +901,14 @@ def _require_detF(vk, F):
 
 def _stress_configs():
     out = []
-    for solid in ("SolidBody", "SolidBodyNearlyIncompressible"):
-        for kind in STRESS_FIELDS:
-            cfg = dict(solid=solid, field=kind)
-            if kind == "3d-q2" or (solid == "SolidBodyNearlyIncompressible" and kind in ("axisymmetric",)):
-                cfg["tier"] = "thorough"
-            out.append(cfg)
+    for kind in STRESS_FIELDS:
+        out.append(dict(solid="SolidBody", field=kind, tables="free"))
+    for kind in ("2d", "planestrain"):
+        out.append(dict(solid="SolidBodyNearlyIncompressible", field=kind, tables="free"))
+    out.append(dict(solid="SolidBodyNearlyIncompressible", field="3d", tables="fixed"))
+    out.append(dict(solid="SolidBodyNearlyIncompressible", field="axisymmetric", tables="fixed"))
+    out.append(dict(solid="SolidBodyNearlyIncompressible", field="axisymmetric", tables="free", tier="thorough"))
+    out.append(dict(solid="SolidBodyNearlyIncompressible", field="3d", tables="free", tier="thorough"))
     return out
 
 
@@ -882,7 +926,9 @@ def stress_contract(vk, cfg):
     vk.real(scls._gradient)
     vk.real(scls._extract)
     cells = np.array([[0, 1, 2, 3], [1, 2, 3, 4]]) if npc == 4 else np.array([[0, 1, 2], [1, 3, 2]])
-    region = OpaqueTables(vk, cells, fdim, nq)
+    region = OpaqueTables(vk, cells, fdim, nq, concrete=cfg["tables"] == "fixed")
+    if cfg["tables"] == "fixed":
+        vk.note("stress[tables=fixed]: universal in the field values of all states, the bulk modulus and the pressure state on ONE region with fixed tables in general position (quick-tier stand-in for the free-table configuration of the thorough tier)")
     mesh = region.mesh
     us = [vk.reals(f"u{k}", (mesh.npoints, fdim), near=0.0, spread=0.08) for k in range(3)]
     Fs = [_F_spec(vk, kind, region, mesh, cells, u) for u in us]
@@ -892,7 +938,7 @@ def stress_contract(vk, cfg):
     field_b = fem.FieldContainer([fcls(region, dim=fdim, values=us[2].copy())])
     if ni:
         bulk = vk.real_scalar("bulk", near=5.0, spread=1.0)
-        solid = scls(umat, field_a, bulk=bulk)
+        solid = scls(umat, field_a, bulk=bulk, state=_abstract_pressure_state(vk, field_a))
     else:
         solid = scls(umat, field_a)
 
@@ -930,13 +976,11 @@ def stress_contract(vk, cfg):
     if vk.sym:
         warned = any("Cauchy stress tensor can't be evaluated on a 2d-Field" in m for m in w)
         vk.ensures_true("2d-fallback warning iff 2d-field", warned == (Fd == 2), f"warnings: {w}", backend="exec")
-    # 3. another container: its state; the first container is not touched
-    a0 = vk.snapshot(field_a[0].values)
+    # 3. another container: its state (that the first container is not touched: contract solid_frame)
     s, w = call("cauchy_stress", field_b)
     vk.ensures_eq("3/cauchy_stress(other field) == P F^T / det F of that field", s, spec(Fs[2], Js[2], True))
     t, w = call("kirchhoff_stress", field_b)
     vk.ensures_eq("3/kirchhoff_stress(other field) == P F^T of that field", t, spec(Fs[2], Js[2], False))
-    vk.frame_unchanged("values of the first container after evaluating another container", field_a[0].values, a0)
     vk.frame_unchanged("values of the other container", field_b[0].values, us[2])
     # 4. back to the first container: P and F of the values it holds at the time of the call
     ua = vk.snapshot(field_a[0].values)
@@ -961,3 +1005,348 @@ def _P_total(vk, umat, solid, F, ni, Fd):
                 cof[:, :, q, c] = symnp.adj_ref(F[:, :, q, c]).T if Fd == 3 else np.array([[F[1, 1, q, c], -F[1, 0, q, c]], [-F[0, 1, q, c], F[0, 0, q, c]]])
         P = P + p.reshape(1, 1, 1, -1) * cof
     return P
+
+
+@contract("C19", "solid_frame", configs=[dict(solid=s) for s in ("SolidBody", "SolidBodyNearlyIncompressible")])
+def solid_frame(vk, cfg):
+    """frame condition of the stress evaluation: evaluating a solid with ANOTHER field container does not
+    change the values of the container the solid was constructed with (nor those of the container passed)"""
+    ni = cfg["solid"] == "SolidBodyNearlyIncompressible"
+    scls = fem.SolidBodyNearlyIncompressible if ni else fem.SolidBody
+    vk.real(scls._extract)
+    vk.real(scls._cauchy_stress)
+    if ni:
+        from felupe.mechanics._helpers import StateNearlyIncompressible
+
+        vk.real(StateNearlyIncompressible.__init__)
+    cells = np.array([[0, 1, 2], [1, 3, 2]])
+    region = OpaqueTables(vk, cells, 2, 2, concrete=True)
+    ua = vk.reals("ua", (4, 2), near=0.0, spread=0.08)
+    ub = vk.reals("ub", (4, 2), near=0.0, spread=0.08)
+    for u in (ua, ub):
+        _require_detF(vk, _F_spec(vk, "planestrain", region, region.mesh, cells, u))
+    umat = StubMaterial(vk, dim=3, hyperelastic=False)
+    field_a = fem.FieldContainer([fem.FieldPlaneStrain(region, dim=2, values=ua.copy())])
+    field_b = fem.FieldContainer([fem.FieldPlaneStrain(region, dim=2, values=ub.copy())])
+    solid = scls(umat, field_a, bulk=vk.real_scalar("bulk", near=5.0)) if ni else scls(umat, field_a)
+    solid.evaluate.cauchy_stress(field_b)
+    vk.ensures_eq("frame/values of the constructor's container after evaluate.cauchy_stress(other container)", field_a[0].values, ua)
+    vk.ensures_eq("frame/values of the container passed", field_b[0].values, ub)
+    solid.evaluate.kirchhoff_stress(field_a)
+    vk.ensures_eq("frame/values of the container passed (first container)", field_a[0].values, ua)
+    if vk.sym:
+        vk.canary("values==0", field_b[0].values, 0 * ub)
+
+
+# ---- tools.force / tools.moment ------------------------------------------------------------------------------------
+def _subsets(n):
+    return [np.array(m) for m in itertools.product([False, True], repeat=n) if any(m)]
+
+
+@contract("C19", "moment_2d", configs=[dict(dim=2, container="single", forces="dense", only="moment")])
+def moment_2d(vk, cfg):
+    """tools.moment for a 2d-field: the scalar moment sum (x + u - c) x f = sum (r_x f_y - r_y f_x)"""
+    try:
+        force_moment(vk, cfg)
+    except ValueError as e:
+        if "3-dimensional vectors" not in str(e):
+            raise
+        vk.ensures_true(
+            "moment of a 2d-field is evaluated",
+            False,
+            f"tools.moment raises ValueError for a field of dim 2 (math.cross -> numpy.cross, NumPy {np.__version__} accepts 3-vectors only): {e}",
+            backend="exec",
+            replay={"kind": "ground", "confirmed": True, "point": "fem.tools.moment(FieldContainer([Field(RegionQuad(Rectangle(n=3)), dim=2)]), forces, Boundary(field[0], fx=1))", "expected": "sum (X+u-c) x f (scalar)", "actual": "ValueError: " + str(e)},
+        )
+        vk.canary_bool("moment-2d", True)
+
+
+@contract("C19", "force_moment", configs=[dict(dim=3, container=c, forces=f) for c in ("single", "mixed") for f in ("dense", "sparse")] + [dict(dim=2, container=c, forces=f, only="force") for c in ("single", "mixed") for f in ("dense", "sparse")])
+def force_moment(vk, cfg):
+    """tools.force(field, forces, boundary) == sum over the boundary's points of the nodal force vectors (first
+    field's part of the force vector); tools.moment(field, forces, boundary, centerpoint) == sum over the
+    boundary's points of (X + u - c) x f -- symbolic coordinates, displacements, forces and centre point; every
+    non-empty point subset of a 5-point mesh as boundary (real Boundary with a point mask)"""
+    import felupe.tools._post as TP
+
+    dim = cfg["dim"]
+    vk.real(fem.tools.force)
+    vk.real(fem.tools.moment)
+    cells = np.array([[0, 1, 2, 3], [1, 2, 3, 4]]) if dim == 3 else np.array([[0, 1, 2], [1, 3, 2], [2, 3, 4]])
+    ct, el, quad = ("tetra", E.Tetra(), fem.TetrahedronQuadrature(order=1)) if dim == 3 else ("triangle", E.Triangle(), fem.TriangleQuadrature(order=1))
+    npts = 5
+    X = vk.reals("X", (npts, dim), near=np.arange(npts * dim).reshape(npts, dim) % 4 * 0.5, spread=0.3)
+    mesh = fem.Mesh(X, cells, ct)
+    region = fem.Region(mesh, el, _lift_quadrature(vk, quad), grad=False)
+    u = vk.reals("u", (npts, dim), near=0.0, spread=0.2)
+    fields = [fem.Field(region, dim=dim, values=u.copy())]
+    nextra = 0
+    if cfg["container"] == "mixed":
+        fields.append(fem.Field(region, dim=1, values=vk.reals("p", (npts, 1))))
+        nextra = npts
+    field = fem.FieldContainer(fields)
+    f = vk.reals("f", (npts * dim + nextra,), near=0.0, spread=1.0)
+    c3 = vk.reals("c", (3,), near=0.5, spread=0.5)
+    fn = f[: npts * dim].reshape(npts, dim)  # spec: the nodal force vectors of the first field
+    if cfg["forces"] == "sparse":
+        # forces as assembled sparse column vector (documented use: forces=job.res.fun / solid.assemble.vector())
+        if vk.sym:
+            forces = DenseCSR(f.reshape(-1, 1))
+        else:
+            from scipy.sparse import csr_matrix
+
+            forces = csr_matrix(f.reshape(-1, 1))
+    else:
+        forces = f.reshape(-1, 1) if cfg["container"] == "single" else f
+    saved = TP.issparse
+    if vk.sym:
+        TP.issparse = lambda x: isinstance(x, DenseCSR) or saved(x)
+    try:
+        subsets = _subsets(npts)
+        for k, mask in enumerate(subsets):
+            lab = "boundary=" + "".join("1" if m else "0" for m in mask)
+            bnd = fem.Boundary(field[0], mask=mask)
+            pts = np.where(mask)[0]
+            if vk.sym:
+                vk.ensures_true(f"{lab}/boundary.points", list(bnd.points) == list(pts), str(bnd.points), backend="exec")
+            if cfg.get("only") != "moment":
+                F = fem.tools.force(field, forces, bnd)
+                vk.ensures_eq(f"{lab}/force==sum of nodal forces", F, sum(fn[p] for p in pts))
+            for cname, cp in (("given", c3), ("default", None)) if cfg.get("only") != "force" else ():
+                M = fem.tools.moment(field, forces, bnd, cp) if cp is not None else fem.tools.moment(field, forces, bnd)
+                c = cp[:dim] if cp is not None else 0 * c3[:dim]
+                r = [X[p] + u[p] - c for p in pts]
+                if dim == 3:
+                    spec = sum(np.array([r_[1] * fn[p][2] - r_[2] * fn[p][1], r_[2] * fn[p][0] - r_[0] * fn[p][2], r_[0] * fn[p][1] - r_[1] * fn[p][0]]) for r_, p in zip(r, pts))
+                else:
+                    spec = sum(r_[0] * fn[p][1] - r_[1] * fn[p][0] for r_, p in zip(r, pts))
+                vk.ensures_eq(f"{lab}/moment(centerpoint={cname})==sum (X+u-c) x f", M, spec)
+                if vk.sym and k == len(subsets) - 1 and cname == "given":
+                    vk.canary("moment==sum f x (X+u-c)", M, -spec)
+                    r0 = [X[p] - c for p in pts]
+                    vk.canary("moment without displacement", np.ravel(M)[-1:], np.ravel(sum(r_[0] * fn[p][1] - r_[1] * fn[p][0] for r_, p in zip(r0, pts)))[-1:])
+    finally:
+        TP.issparse = saved
+    if vk.sym:
+        if cfg.get("only") == "force":
+            vk.canary("force==2*sum", F, 2 * sum(fn[p] for p in pts))
+        vk.bounded_standin("number of mesh points / boundary points of force and moment", bound="one 5-point mesh, all 31 non-empty point subsets as boundary", evaluations=len(subsets), ok=True, detail="each subset carries P obligations universal in coordinates, displacements, forces, centre point")
+
+
+# ---- strain / stretch helpers of a field container -----------------------------------------------------------------
+class _EigenBackends:
+    """contract stubs of np.linalg.eigh / eigvalsh (C17 contract: matrices in the last two axes; eigh returns
+    (w[..., a], V[..., i, a])): fresh symbols, positive eigenvalues for the positive definite arguments"""
+
+    def __init__(s, vk):
+        s.vk, s.calls = vk, []
+
+    def _w(s, a, tag):
+        a = np.asarray(a)
+        n = len(s.calls)
+        w = s.vk.reals(f"lam{n}{tag}", a.shape[:-1], near=1.0, spread=0.3)
+        for x in w.ravel():
+            oracle.assume(co(x), ">")
+        return a, w, n
+
+    def eigh(s, a):
+        a, w, n = s._w(a, "h")
+        V = ring.symarray(f"vec{n}_", a.shape)
+        s.calls.append(("eigh", a, w, V))
+        return w, V
+
+    def eigvalsh(s, a):
+        a, w, n = s._w(a, "v")
+        s.calls.append(("eigvalsh", a, w, None))
+        return w
+
+    def __enter__(s):
+        symnp.LINALG_STUBS.update(eigh=s.eigh, eigvalsh=s.eigvalsh)
+        return s
+
+    def __exit__(s, *a):
+        symnp.LINALG_STUBS.clear()
+
+
+def _batch_first(A, kind="eigh"):
+    """the layout the eigen backends receive (C17 contract of the math wrappers): eigh gets (q, c, i, j) and
+    returns w[q, c, a], V[q, c, i, a]; eigvalsh gets A.T = (c, q, j, i) and returns w[c, q, a]"""
+    if kind == "eigvalsh":
+        return np.asarray(A).T
+    return np.moveaxis(np.moveaxis(A, 0, -1), 0, -1)
+
+
+def _lam(w, kind):
+    """eigenvalues as (a, q, c)"""
+    return np.asarray(w).T if kind == "eigvalsh" else np.moveaxis(w, -1, 0)
+
+
+def _seth_hill(k, lam):
+    st = symnp._sqrt(lam)
+    return symnp._OVERRIDES["log"](st) if k == 0 else (st**k - 1) / k
+
+
+VOIGT = [(0, 0), (1, 1), (2, 2), (0, 1), (1, 2), (0, 2)]
+
+
+def _strain_from_backend(k, w, V, tensor, asvoigt, kind="eigh"):
+    """spec (docstring of EvaluateFieldContainer.strain / math.strain): E = sum_a f(lambda_a) N_a (x) N_a with
+    (lambda_a^2, N_a) the eigenpairs of C; reduced (Voigt) storage of a strain tensor: C17 tovoigt(strain=True)"""
+    lam = _lam(w, kind)  # (a, q, c)
+    if not tensor:
+        return _seth_hill(k, lam)
+    N = np.moveaxis(np.moveaxis(V, -1, 0), -1, 0)  # (i, a, q, c)
+    Et = ref_einsum("aqc,iaqc,jaqc->ijqc", _seth_hill(k, lam), N, N)
+    if asvoigt:
+        return np.array([Et[i, j] * (1 if i == j else 2) for i, j in VOIGT])
+    return Et
+
+
+@contract("C19", "field_evaluate", configs=[dict(field=k) for k in ("3d", "planestrain", "axisymmetric")])
+def field_evaluate(vk, cfg):
+    """field.evaluate.*: deformation_gradient() == I + grad u, right_cauchy_green_deformation() == F^T F,
+    strain / log_strain / green_lagrange_strain == sum_a f(lambda_a) N_a (x) N_a (tensor, Voigt storage,
+    principal values) of the eigen-decomposition of C = F^T F of THIS field (eigen backends: C17 contract)"""
+    from felupe.field._evaluate import EvaluateFieldContainer as EV
+
+    kind = cfg["field"]
+    npc, nq, fcls, fdim, Fd = STRESS_FIELDS[kind]
+    for fn in (EV.deformation_gradient, EV.right_cauchy_green_deformation, EV.strain, EV.log_strain, EV.green_lagrange_strain):
+        vk.real(fn)
+    cells = np.array([[0, 1, 2, 3], [1, 2, 3, 4]]) if npc == 4 else np.array([[0, 1, 2], [1, 3, 2]])
+    region = OpaqueTables(vk, cells, fdim, nq)
+    u = vk.reals("u", (region.mesh.npoints, fdim), near=0.0, spread=0.08)
+    F = _F_spec(vk, kind, region, region.mesh, cells, u)
+    field = fem.FieldContainer([fcls(region, dim=fdim, values=u.copy())])
+    C = ref_einsum("kiqc,kjqc->ijqc", F, F)
+    vk.ensures_eq("deformation_gradient()==I+grad(u)", field.evaluate.deformation_gradient(), F)
+    vk.ensures_eq("right_cauchy_green_deformation()==F^T F", field.evaluate.right_cauchy_green_deformation(), C)
+    if not vk.sym:
+        return
+    calls = [
+        ("strain()", lambda: field.evaluate.strain(), 0, True, False),
+        ("strain(tensor=True,asvoigt=True)", lambda: field.evaluate.strain(tensor=True, asvoigt=True), 0, True, True),
+        ("strain(tensor=False)", lambda: field.evaluate.strain(tensor=False), 0, False, False),
+        ("strain(k=1)", lambda: field.evaluate.strain(k=1), 1, True, False),
+        ("strain(fun=custom)", lambda: field.evaluate.strain(fun=lambda stretch, m: stretch**m - 1, m=3, tensor=False), None, False, False),
+        ("log_strain()", lambda: field.evaluate.log_strain(), 0, True, False),
+        ("log_strain(tensor=False)", lambda: field.evaluate.log_strain(tensor=False), 0, False, False),
+        ("log_strain(asvoigt=True)", lambda: field.evaluate.log_strain(asvoigt=True), 0, True, True),
+        ("green_lagrange_strain()", lambda: field.evaluate.green_lagrange_strain(), 2, True, False),
+        ("green_lagrange_strain(tensor=False)", lambda: field.evaluate.green_lagrange_strain(tensor=False), 2, False, False),
+        ("green_lagrange_strain(asvoigt=True)", lambda: field.evaluate.green_lagrange_strain(asvoigt=True), 2, True, True),
+    ]
+    for lab, fn, k, tensor, asvoigt in calls:
+        with _EigenBackends(vk) as eb:
+            val = fn()
+        vk.ensures_true(f"{lab}/one eigen-decomposition", len(eb.calls) == 1 and eb.calls[0][0] == ("eigh" if tensor else "eigvalsh"), str([c[0] for c in eb.calls]), backend="exec")
+        kindc, a, w, V = eb.calls[0]
+        vk.ensures_eq(f"{lab}/decomposed tensor is C=F^T F of this field", a, _batch_first(C, kindc))
+        if k is None:
+            spec = symnp._sqrt(_lam(w, kindc)) ** 3 - 1
+        else:
+            spec = _strain_from_backend(k, w, V, tensor, asvoigt, kindc)
+        vk.ensures_eq(f"{lab}==sum f(lambda) N(x)N", val, spec)
+    vk.canary("log_strain==green_lagrange", val, _strain_from_backend(0, w, V, True, True, kindc))
+
+
+# ---- per-cell data of the view classes ------------------------------------------------------------------------------
+class _DatasetStub:
+    """contract stub of the pyvista dataset the view classes fill: point_data[label] = array / cell_data[label]
+    = array store the array, one row per point / cell, rows flattened in C order (checked against the real
+    pyvista.UnstructuredGrid by the native run, which uses the real pyvista)"""
+
+    def __init__(s):
+        s.point_data, s.cell_data = {}, {}
+
+    def set_active_scalars(s, *a, **k):
+        pass
+
+    set_active_vectors = set_active_tensors = set_active_scalars
+
+
+def _rows(a, n):
+    a = np.asarray(a)
+    return a.reshape(n, -1)
+
+
+@contract("C19", "view_defgrad", configs=[dict(view="ViewField", only="defgrad"), dict(view="ViewSolid", stress_type="Cauchy", only="defgrad")])
+def view_defgrad(vk, cfg):
+    """cell data "Deformation Gradient" of ViewField / ViewSolid: per cell the 9 components (row-major, the
+    VTK tensor convention and the layout of Job's file export) of the quadrature-point mean of F"""
+    view_cell_data(vk, cfg)
+
+
+@contract("C19", "view_cell_data", configs=[dict(view="ViewField")] + [dict(view="ViewSolid", stress_type=t) for t in ("Cauchy", "Kirchhoff", None)])
+def view_cell_data(vk, cfg):
+    """ViewField / ViewSolid (project=None): every default cell-data item is, per cell, the mean over the
+    quadrature points of the named quantity: Deformation Gradient (9 components, row-major), Logarithmic Strain
+    (Voigt storage), its principal values; <type> Stress (Voigt), its principal values, its von Mises equivalent,
+    evaluated for the field given to the view"""
+    from felupe.view._field import ViewField
+    from felupe.view._solid import ViewSolid
+
+    vk.real(ViewField.__init__)
+    vk.real(ViewSolid.__init__)
+    cells = np.array([[0, 1, 2, 3], [1, 2, 3, 4]])
+    nq, nc = 2, 2
+    region = OpaqueTables(vk, cells, 3, nq, cell_type="tetra")
+    u = vk.reals("u", (region.mesh.npoints, 3), near=0.0, spread=0.08)
+    F = _F_spec(vk, "3d", region, region.mesh, cells, u)
+    J = _require_detF(vk, F)
+    field = fem.FieldContainer([fem.Field(region, dim=3, values=u.copy())])
+    C = ref_einsum("kiqc,kjqc->ijqc", F, F)
+    if vk.sym:
+        region.mesh.as_pyvista = lambda cell_type=None: _DatasetStub()
+    solid = None
+    if cfg["view"] == "ViewSolid":
+        umat = StubMaterial(vk, dim=3, hyperelastic=False)
+        u0 = vk.reals("u0", (region.mesh.npoints, 3), near=0.0, spread=0.08)
+        _require_detF(vk, _F_spec(vk, "3d", region, region.mesh, cells, u0))
+        solid = fem.SolidBody(umat, fem.FieldContainer([fem.Field(region, dim=3, values=u0.copy())]))  # another state
+    with _EigenBackends(vk) if vk.sym else _nullcontext() as eb:
+        with warnings.catch_warnings():
+            warnings.simplefilter("ignore")
+            view = ViewSolid(field, solid=solid, stress_type=cfg["stress_type"]) if solid is not None else ViewField(field)
+    cd = view.mesh.cell_data
+    mean_q = lambda A: ref_einsum("kqc->ck", A.reshape((-1,) + A.shape[-2:])) / nq  # (c, components in C order)
+    if cfg.get("only") == "defgrad":
+        vk.ensures_eq("Deformation Gradient: row-major mean over q of F", _rows(cd["Deformation Gradient"], nc), mean_q(F))
+        vk.canary("Deformation Gradient==0", _rows(cd["Deformation Gradient"], nc), 0 * mean_q(F)) if vk.sym else None
+        return
+    # the set of 9 components per cell (the component ORDER is the separate contract view_defgrad)
+    vk.ensures_eq("Deformation Gradient: diagonal components and sum of all components", np.stack([_rows(cd["Deformation Gradient"], nc)[:, k] for k in (0, 4, 8)] + [np.sum(_rows(cd["Deformation Gradient"], nc), axis=1)]), np.stack([mean_q(F)[:, k] for k in (0, 4, 8)] + [np.sum(mean_q(F), axis=1)]))
+    if not vk.sym:
+        return
+    byarg = {}
+    for kindc, a, w, V in eb.calls:
+        byarg.setdefault(kindc, []).append((a, w, V))
+    # strains: one eigh (tensor) and one eigvalsh (principal values) of C of the viewed field
+    (a, w, V), = byarg["eigh"]
+    vk.ensures_eq("Logarithmic Strain/decomposed tensor is C of the viewed field", a, _batch_first(C))
+    vk.ensures_eq("Logarithmic Strain: mean over q (Voigt storage)", _rows(cd["Logarithmic Strain"], nc), mean_q(_strain_from_backend(0, w, V, True, True)))
+    ev = byarg["eigvalsh"]
+    a, w, V = ev[-1]
+    vk.ensures_eq("Principal Values of Logarithmic Strain/decomposed tensor is C", a, _batch_first(C, "eigvalsh"))
+    vk.ensures_eq("Principal Values of Logarithmic Strain: mean over q", _rows(cd["Principal Values of Logarithmic Strain"], nc), mean_q(_strain_from_backend(0, w, V, False, False, "eigvalsh")))
+    if solid is not None:
+        P = umat._map(F, "P")
+        S = ref_einsum("ikqc,jkqc->ijqc", P, F)
+        st = cfg["stress_type"]
+        if st == "Cauchy":
+            S = S / np.asarray(J)[None, None]
+        elif st is None:
+            S = P
+        label = f"{st} Stress" if st else "Stress"
+        vk.ensures_true("stress labels", sorted(k for k in cd if "Stress" in k) == sorted([label, f"Principal Values of {label}", f"Equivalent of {label}"]), str(sorted(cd)), backend="exec")
+        vk.ensures_eq(f"{label}: mean over q (Voigt storage) of the stress of the viewed field", _rows(cd[label], nc), mean_q(np.array([S[i, j] for i, j in VOIGT])))
+        a, w, V = ev[0]
+        vk.ensures_eq(f"Principal Values of {label}/decomposed tensor is the stress", a, _batch_first(S, "eigvalsh"))
+        vk.ensures_eq(f"Principal Values of {label}: mean over q", _rows(cd[f"Principal Values of {label}"], nc), mean_q(_lam(w, "eigvalsh")))
+        dev = S.copy()
+        tr = (S[0, 0] + S[1, 1] + S[2, 2]) / 3
+        for i in range(3):
+            dev[i, i] = dev[i, i] - tr
+        vm = symnp._sqrt(ref_einsum("ijqc,ijqc->qc", dev, dev) * 3 / 2)
+        vk.ensures_eq(f"Equivalent of {label}: mean over q of sqrt(3/2 dev:dev)", _rows(cd[f"Equivalent of {label}"], nc), mean_q(vm[None]))
+    vk.canary("Deformation Gradient==0", _rows(cd["Deformation Gradient"], nc), 0 * mean_q(F))
